@@ -161,7 +161,7 @@ def gen_poly(rng, n, tier):
         else:
             xs = [p[0] for p in pts]; ys = [p[1] for p in pts]
             q = [rng.uniform(min(xs) - 30 * sc, max(xs) + 30 * sc), rng.uniform(min(ys) - 30 * sc, max(ys) + 30 * sc)]
-        out.append({'pts': pts, 'q': q, 'edited': rng.random() < 0.3, 'qtrack': rng.choice([None, None, 'fresh', 'mapped']),
+        out.append({'pts': pts, 'q': q, 'edited': rng.random() < 0.3, 'qtrack': rng.choice([None, None, 'fresh', 'mapped']), 'qprev': rng.choice([None, 'near', 'creep', 'same', 'far']),
                     'qz': rng.choice([0.0, 0.0, 135.0, -12.5]), 'tz': rng.choice([0.0, 0.0, 135.0, 40.0])})
     for _ in range(max(8, n // 100)):
         # long polylines digitised finely one way and coarsely the other (an out-and-back road): the nearest segment is far, in index, from the nearest vertex
@@ -205,8 +205,15 @@ def run_poly(case):
             qt2 = mp.mapOnTrack(qt, other)
             qt2.getObs(0).position.setX(case['q'][0]); qt2.getObs(0).position.setY(case['q'][1])
             qt = qt2
+        if case.get('qprev'):
+            # the query track has earlier fixes: a slowly creeping receiver (fixes some hundredths of a millimetre apart), a repeated fix, a distant one; each fix is projected for itself
+            qx, qy = case['q']
+            pre = {'near': [[qx + 40.0, qy - 7.0], [qx + 6e-5, qy - 3e-5]], 'creep': [[qx - 1.8e-4 + 6e-5 * i, qy + 2.4e-4 - 8e-5 * i] for i in range(3)], 'same': [[qx, qy]], 'far': [[qx - 13.0, qy + 2.5]]}[case['qprev']]
+            last = qt.getObs(0)
+            qt = Track([Obs(ENUCoords(x, y, 0.0), ObsTime.readUnixTime(k)) for k, (x, y) in enumerate(pre)] + [last])
         out = mp.mapOnTrack(qt, tr)
-        res['tmap'] = [float(out.getObs(0).position.getX()), float(out.getObs(0).position.getY()), float(out['dist', 0]), int(out['edge', 0])]
+        L = out.size() - 1
+        res['tmap'] = [float(out.getObs(L).position.getX()), float(out.getObs(L).position.getY()), float(out['dist', L]), int(out['edge', L])]
     return res
 
 
